@@ -47,7 +47,7 @@ var DefaultWeights = map[string]int{
 	"toc": 1, "autotoc": 1, "updatetoc": 1, "props": 2, "title": 1, "author": 1, "stats": 1,
 	"pagesize": 1, "custompage": 1, "orient": 1, "margins": 1, "hfdist": 1, "gutter": 1, "docgrid": 1, "cleargrid": 1,
 	"rmpara": 1, "rmparaat": 1, "rmelemat": 1, "customstyle": 1,
-	"save": 1, "reopen": 2, "tplstr": 1, "tpldoc": 2, "md": 2,
+	"save": 1, "reopen": 2, "tplstr": 1, "tpldoc": 2, "tpldoc2": 1, "md": 2,
 }
 
 func (c *Config) kinds() []string {
@@ -425,6 +425,14 @@ func (c *Config) Op(t *rapid.T) Op {
 		o.Data = c.data(t, &o)
 	case "tpldoc":
 		o.Data = c.data(t, &o)
+	case "tpldoc2":
+		o.Data = c.data(t, &o)
+		o.Data2 = c.data(t, &o)
+		o.B = []bool{rapid.IntRange(0, 3).Draw(t, "addph") != 0}
+		if o.b(0) { // both renders get a picture for the placeholder, of independently drawn formats
+			o.Data.Imgs = map[string]gen.Img{"p": gen.Image(t, "dimg1")}
+			o.Data2.Imgs = map[string]gen.Img{"p": gen.Image(t, "dimg2")}
+		}
 	case "md":
 		o.S = []string{c.mdSource(t, &o)}
 		o.B = []bool{bl(), bl(), bl(), bl(), bl(), bl()}
